@@ -73,7 +73,10 @@ def ofUTxO (u : UTxOModel) : Json :=
       | none => .null)]
 
 def jAux (j : Json) : R Aux := do
-  pure ⟨← getBytes j "inline_hash", ← getBytes j "script_hash"⟩
+  let nativeJson ← match getOpt j "native_json" with
+    | some t => jTree t
+    | none => pure .null
+  pure ⟨← getBytes j "inline_hash", ← getBytes j "script_hash", nativeJson⟩
 
 def jTable (j : Json) (k : String) : R (List (String × J)) :=
   match getOpt j k with
@@ -116,7 +119,7 @@ def handleBackend (op : String) (j : Json) : R Json := do
       let (m, s) := render_kupo aux u
       pure (Json.mkObj [("main", ofTree m), ("side", ofSide s)])
     | "ogmios_v5" => pure (Json.mkObj [("main", ofTree (render_ogmios_v5 u)), ("side", ofSide ⟨[], []⟩)])
-    | "ogmios_v6" => pure (Json.mkObj [("main", ofTree (render_ogmios_v6 u)), ("side", ofSide ⟨[], []⟩)])
+    | "ogmios_v6" => pure (Json.mkObj [("main", ofTree (render_ogmios_v6 aux u)), ("side", ofSide ⟨[], []⟩)])
     | "cardano_cli" =>
       let (k, m) := render_cardano_cli aux u
       pure (Json.mkObj [("main", ofTree m), ("side", ofSide ⟨[], []⟩), ("key", .str k)])
